@@ -168,12 +168,13 @@ def check_all(data, protocol, unsafe=False, ext=False, buffer=False, min_ops=Non
     """All byte-level checks; returns list of 'Cxx ...' strings."""
     ops, errs = decode(data)
     names = [o[0] for o in ops]
-    if not unsafe and not any(e.startswith('C04') for e in errs):
-        me, _ = machine(ops)
-        errs += me
-        for d in dis_check(data):
-            errs.append('C01 ' + d if 'memo' not in d else 'C02 ' + d)
-        # C05
+    if not unsafe:
+        if not any(e.startswith('C04') for e in errs):
+            me, _ = machine(ops)
+            errs += me
+            for d in dis_check(data):
+                errs.append('C01 ' + d if 'memo' not in d else 'C02 ' + d)
+        # C05 (also on the prefix that still decodes when the stream derails later)
         for n, a, pos in ops:
             if TABLE[n].proto > protocol:
                 errs.append('C05 %s (protocol %d) in protocol-%d pickle at %d' % (n, TABLE[n].proto, protocol, pos))
